@@ -89,8 +89,34 @@ func BuildRootNode(tasks []TaskInfoGetter) (*TaskNode, error) {
 	if cycleStart := root.HasCycle(); cycleStart != nil {
 		return nil, fmt.Errorf("dag has cycle at: %s", cycleStart.TaskInsID)
 	}
+	// a cycle whose nodes cannot be reached from any start node is never
+	// enqueued by the level-order check above, so make sure it visited every task
+	if unvisited := root.unreachableFrom(m); unvisited != nil {
+		return nil, fmt.Errorf("dag has cycle at: %s", unvisited.TaskInsID)
+	}
 
 	return root, nil
+}
+
+// unreachableFrom returns a node of m that cannot be reached from t through child links, if any
+func (t *TaskNode) unreachableFrom(m map[string]*TaskNode) *TaskNode {
+	reached := map[*TaskNode]struct{}{}
+	stack := []*TaskNode{t}
+	for len(stack) > 0 {
+		cur := stack[len(stack)-1]
+		stack = stack[:len(stack)-1]
+		if _, ok := reached[cur]; ok {
+			continue
+		}
+		reached[cur] = struct{}{}
+		stack = append(stack, cur.children...)
+	}
+	for _, n := range m {
+		if _, ok := reached[n]; !ok {
+			return n
+		}
+	}
+	return nil
 }
 
 func buildGraphNodeMap(tasks []TaskInfoGetter) (map[string]*TaskNode, error) {
